@@ -42,6 +42,11 @@ func Run(o RunOpts, argv ...string) ExecResult {
 		cmd.Env = o.Env
 	} else {
 		cmd.Env = CleanEnv()
+		if o.Dir != "" {
+			// yq -i leaves its temporary file behind when a run fails: keep those inside the case directory
+			// (which the case removes), not in the machine's /tmp
+			cmd.Env = append(cmd.Env, "TMPDIR="+o.Dir)
+		}
 	}
 	if o.Stdin != nil {
 		cmd.Stdin = bytes.NewReader(o.Stdin)
